@@ -753,7 +753,7 @@ func genCA(t *rapid.T) caCase {
 }
 
 func checkCA(c caCase) (o pbt.Outcome, err error) {
-	prot, ntb, protOf, trimmed, gapcol, herr := caOperands(c)
+	prot, ntb, _, trimmed, gapcol, herr := caOperands(c)
 	if herr != nil {
 		return o, herr
 	}
@@ -771,12 +771,13 @@ func checkCA(c caCase) (o pbt.Outcome, err error) {
 	if len(got) != len(prot.Rows) {
 		return o, fmt.Errorf("codon alignment has %d rows, protein alignment %d", len(got), len(prot.Rows))
 	}
-	seen := map[string]bool{}
-	for _, r := range got {
-		if _, in := protOf[r.Name]; !in || seen[r.Name] {
-			return o, fmt.Errorf("codon alignment has an unexpected or repeated row %q", r.Name)
+	// an alignment is an ordered list of rows: the codon alignment (whose translation must be "the
+	// protein alignment again") lists them in the order of the protein alignment, name by name,
+	// whatever the order of the nucleotide set
+	for i, r := range got {
+		if r.Name != prot.Rows[i].Name {
+			return o, fmt.Errorf("row %d of the codon alignment is %q, row %d of the protein alignment is %q (nucleotide set order: %s)", i, r.Name, i, prot.Rows[i].Name, gen.Show(ntb.Rows))
 		}
-		seen[r.Name] = true
 		if len(r.Seq) != 3*p {
 			return o, fmt.Errorf("row %s of the codon alignment has %d characters, expected %d", r.Name, len(r.Seq), 3*p)
 		}
@@ -788,10 +789,8 @@ func checkCA(c caCase) (o pbt.Outcome, err error) {
 	if e := res.Translate(0, codeID(c.Code)); e != nil {
 		return o, fmt.Errorf("the codon alignment cannot be translated: %v", e)
 	}
-	for _, r := range gen.Snapshot(res) {
-		if r.Seq != protOf[r.Name] {
-			return o, fmt.Errorf("translation of the codon alignment, row %s = %q, protein alignment has %q", r.Name, r.Seq, protOf[r.Name])
-		}
+	if back := gen.Snapshot(res); !gen.SameRows(back, prot.Rows) {
+		return o, fmt.Errorf("the translation of the codon alignment is not the protein alignment\n got : %s\n want: %s", gen.Show(back), gen.Show(prot.Rows))
 	}
 	if !gen.SameRows(gen.Snapshot(nts)[:len(c.Nt)], c.Nt) || !gen.SameRows(gen.Snapshot(pa), prot.Rows) {
 		return o, fmt.Errorf("CodonAlign modified its inputs")
@@ -801,6 +800,12 @@ func checkCA(c caCase) (o pbt.Outcome, err error) {
 		rem = rem || len(r.Seq)%3 != 0
 	}
 	o.NonTrivial = gapcol
+	for i, k := range c.Order {
+		if i != k {
+			o.Class("protein rows in another order than the nucleotide set")
+			break
+		}
+	}
 	if hostileNames(c.Nt) {
 		o.Class("names: case variants / prefixes / blanks")
 	}
@@ -1304,9 +1309,9 @@ func TestCLI(t *testing.T) {
 				return o, fmt.Errorf("goalign %v: %d rows for %d protein rows", args, len(got), len(prot))
 			}
 			p := len(prot[0].Seq)
-			for _, g := range got {
-				if _, in := protOf[g.Name]; !in {
-					return o, fmt.Errorf("goalign %v: unexpected row %q", args, g.Name)
+			for i, g := range got {
+				if g.Name != prot[i].Name {
+					return o, fmt.Errorf("goalign %v: row %d is %q, row %d of the protein alignment is %q", args, i, g.Name, i, prot[i].Name)
 				}
 				if len(g.Seq) != 3*p {
 					return o, fmt.Errorf("goalign %v: row %s has %d characters, expected %d", args, g.Name, len(g.Seq), 3*p)
@@ -1326,13 +1331,8 @@ func TestCLI(t *testing.T) {
 			if perr != nil {
 				return o, fmt.Errorf("goalign %v: unreadable output: %v", args2, perr)
 			}
-			for _, g := range back {
-				if g.Seq != protOf[g.Name] {
-					return o, fmt.Errorf("goalign codonalign | translate: row %s = %q, protein alignment has %q", g.Name, g.Seq, protOf[g.Name])
-				}
-			}
-			if len(back) != len(prot) {
-				return o, fmt.Errorf("goalign codonalign | translate: %d rows for %d", len(back), len(prot))
+			if !gen.SameRows(back, prot) {
+				return o, fmt.Errorf("goalign codonalign | translate is not the protein alignment\n got : %s\n want: %s", gen.Show(back), gen.Show(prot))
 			}
 			o.NonTrivial = gapcol
 		}
